@@ -79,6 +79,9 @@
      clone_made E src n i s   the pairs the Clone callbacks return, in order,
                       when cloning slots i, i+1, ... of src from callback
                       state s, up to the first Clone panic
+     clone_orphans E src n i s   the identities of the key K::clone had just made
+                      when the V::clone of the same pair panicked ([] otherwise):
+                      it is destroyed by unwinding
      cloned_from E a k'   k' is what cloneK returned, in some callback state,
                       for a key stored in a
 
@@ -148,8 +151,9 @@
      "cloned into a Map": Clone
                              C02_clone_acct (the clone owns exactly what the Clone
                              callbacks returned; on a Clone panic every object
-                             made so far is destroyed by the Drop of the partial
-                             clone, or leaked in it)
+                             made so far - incl. the orphan key of the failing
+                             pair - is destroyed exactly once by the unwinding,
+                             nothing is left in the partial clone)
                              C02_clone_NoDup (none of them twice)
 
    PARTLY / NOT COVERED BY A THEOREM (left to the correspondence check and the
@@ -670,9 +674,11 @@ Print Assumptions C02_s_take_NoDup.
 (* Clone into an empty tidy container of the source's capacity: the clone owns
    exactly the objects the Clone callbacks returned (clone_made), nothing is
    destroyed on normal return; on a panic of a Clone callback the partial clone is
-   dropped by the unwinding, and every object made so far has been destroyed by
-   that Drop (d) or is left (leaked) in its dead storage (owned E (self w')),
-   none twice *)
+   destroyed by the unwinding (finally_drop runs the panic-free unwind_map): its
+   storage is EMPTY afterwards (owned E (self w') = []) and exactly the objects
+   made so far - the complete pairs (made) and, when it is a value's Clone that
+   panicked, the freshly cloned key of that pair (orphan = clone_orphans) - have
+   been destroyed, each once (Permutation d (made ++ orphan)): nothing is leaked *)
 Theorem C02_clone_acct :
   forall (K V Q T : Type) (E : env K V Q T) (src : map K V) (w : world K V T),
   WF src ->
@@ -681,19 +687,18 @@ Theorem C02_clone_acct :
   cap (self w) = cap src ->
   Tidy (self w) ->
   let made := flat_map (ids_pair E) (clone_made E src (len src) 0 (cb w)) in
+  let orphan := clone_orphans E src (len src) 0 (cb w) in
   wp (clone_from_src E src)
     (fun (_ : unit) (w' : world K V T) =>
-       WF (self w') /\
-       Tidy (self w') /\
-       len (self w') = len src /\
-       length (clone_made E src (len src) 0 (cb w)) = len src /\
-       dropped (log w') = dropped (log w) /\
-       Permutation (owned E (self w')) made)
+     WF (self w') /\
+     Tidy (self w') /\
+     len (self w') = len src /\
+     length (clone_made E src (len src) 0 (cb w)) = len src /\
+     dropped (log w') = dropped (log w) /\ Permutation (owned E (self w')) made)
     (fun w' : world K V T =>
-       exists d : list N,
-         dropped (log w') = dropped (log w) ++ d /\
-         Permutation (owned E (self w') ++ d) made)
-    w.
+     owned E (self w') = [] /\
+     (exists d : list N,
+        dropped (log w') = dropped (log w) ++ d /\ Permutation d (made ++ orphan))) w.
 Proof. exact (@clone_acct). Qed.
 Print Assumptions C02_clone_acct.
 
@@ -704,11 +709,12 @@ Theorem C02_clone_NoDup :
   len (self w) = 0 ->
   cap (self w) = cap src ->
   Tidy (self w) ->
-  NoDup (flat_map (ids_pair E) (clone_made E src (len src) 0 (cb w)) ++ dropped (log w)) ->
+  NoDup
+    (flat_map (ids_pair E) (clone_made E src (len src) 0 (cb w)) ++
+     clone_orphans E src (len src) 0 (cb w) ++ dropped (log w)) ->
   wp (clone_from_src E src)
     (fun (_ : unit) (w' : world K V T) => NoDup (owned E (self w') ++ dropped (log w')))
-    (fun w' : world K V T => NoDup (owned E (self w') ++ dropped (log w')))
-    w.
+    (fun w' : world K V T => NoDup (owned E (self w') ++ dropped (log w'))) w.
 Proof. exact (@clone_NoDup). Qed.
 Print Assumptions C02_clone_NoDup.
 
@@ -796,7 +802,8 @@ Example C02_example_clone :
   WF (self w0) /\ len (self w0) = 0 /\ cap (self w0) = cap m3 /\ Tidy (self w0) /\
   length (clone_made (env_map (sc_drop 0)) m3 (len m3) 0 (cb w0)) = 3 /\
   NoDup (flat_map (ids_pair (env_map (sc_drop 0)))
-                  (clone_made (env_map (sc_drop 0)) m3 (len m3) 0 (cb w0)) ++ dropped (log w0)).
+                  (clone_made (env_map (sc_drop 0)) m3 (len m3) 0 (cb w0)) ++
+         clone_orphans (env_map (sc_drop 0)) m3 (len m3) 0 (cb w0) ++ dropped (log w0)).
 Proof.
   cbv zeta. split; [apply WF_new|]. split; [reflexivity|]. split; [reflexivity|].
   split; [intros i _ Hn; destruct i as [|[|[|i]]]; try reflexivity; exfalso; apply Hn; destruct i; reflexivity|].
@@ -804,6 +811,21 @@ Proof.
   repeat constructor; cbn [In]; intros H;
     repeat (destruct H as [H | H]; try discriminate H); exact H.
 Qed.
+
+(* the panic clause of C02_clone_acct with an orphan: cloning m3 where the clone
+   call number 3 - the V::clone of the SECOND pair - panics (script sc_clone 3):
+   one complete pair (ids 100000, 100001) and the orphan key 100002 had been
+   made; unwinding destroys exactly these three (the orphan first), and nothing
+   is left in the partial clone *)
+Example C02_example_clone_orphan :
+  clone_made (env_map (sc_clone 3)) m3 (len m3) 0 cs0 = [(k_ 100000 5, v_ 100001 7)] /\
+  clone_orphans (env_map (sc_clone 3)) m3 (len m3) 0 cs0 = [100002]%N /\
+  match clone_from_src (env_map (sc_clone 3)) m3 (w_of (new_map 3)) with
+  | Panic w' => owned (env_map (sc_clone 3)) (self w') = [] /\
+                dropped (log w') = [100002; 100000; 100001]%N
+  | _ => False
+  end.
+Proof. vm_compute. repeat split; reflexivity. Qed.
 
 
 (* ========================================================================== *)
@@ -1276,8 +1298,8 @@ Print Assumptions C02_modf_add_keeps_id.
    drop of the OLD contents destroyed, d ++ lost = the old contents (lost = []
    from a tidy register); everything built is stored or was destroyed once.
    Panic, first disjunct: the BUILD panicked - self w' = self w: the register is
-   untouched, what had been built was destroyed by the local's own destructor
-   or leaked.  Panic, second disjunct: the build succeeded and a Drop of an old
+   untouched, what had been built was destroyed by the unwinding of the local
+   (for Clone: exactly made ++ orphan, nothing leaked).  Panic, second disjunct: the build succeeded and a Drop of an old
    element panicked: the register already holds the new container. *)
 Theorem C02_replace_with_build_panic_keeps_self :
   forall (V : Type) (E : env key V query cstate) (build : M key V cstate unit) 
@@ -1352,6 +1374,7 @@ Theorem C02_op_clone_acct :
   WF (self w) ->
   cap src = cap (self w) ->
   let made := flat_map (ids_pair E) (clone_made E src (len src) 0 (cb w)) in
+  let orphan := clone_orphans E src (len src) 0 (cb w) in
   wp (replace_with E (clone_from_src E src) body)
     (fun (r : list N) (w' : world key V cstate) =>
      r = body /\
@@ -1366,8 +1389,8 @@ Theorem C02_op_clone_acct :
         Permutation (d ++ lost) (owned E (self w)) /\ (Tidy (self w) -> lost = [])))
     (fun w' : world key V cstate =>
      self w' = self w /\
-     (exists d lost : list N,
-        dropped (log w') = dropped (log w) ++ d /\ Permutation (d ++ lost) made) \/
+     (exists d : list N,
+        dropped (log w') = dropped (log w) ++ d /\ Permutation d (made ++ orphan)) \/
      WF (self w') /\
      cap (self w') = cap (self w) /\
      Tidy (self w') /\
@@ -1629,7 +1652,7 @@ Example C02_example_history_honest :
   match mfinal (env_map C02_sc0) false C02_ops1 (w_of m3) with
   | Some wf => owned (env_map C02_sc0) (self wf) = [13; 14]%N /\
                mouts_x (env_map C02_sc0) false C02_ops1 (w_of m3) = [2; 4; 6; 1; 11; 15]%N /\
-               dropped (log wf) = [7; 8; 10; 3; 5; 12]%N
+               dropped (log wf) = [8; 7; 10; 3; 5; 12]%N
   | None => False
   end.
 Proof. vm_compute. repeat split; reflexivity. Qed.
